@@ -84,6 +84,7 @@ type Solver struct {
 	Log        io.Writer
 	dead       bool
 	lemma      map[int]Result // fp-sub lemma per width
+	noFallback bool
 	Deadline   time.Time      // queries after this instant answer unknown (case budget)
 }
 
@@ -231,6 +232,22 @@ func (s *Solver) readUntilMarker() ([]string, error) {
 	}
 }
 
+// CheckQuick is Check under a shorter per-query timeout and without the portfolio
+// fallback (used for optional model refinement).
+func (s *Solver) CheckQuick(extra []*Term, vars []*Term, timeoutMs int) (Result, map[string]string) {
+	old := s.TimeoutMs
+	s.TimeoutMs = timeoutMs
+	s.noFallback = true
+	s.send(fmt.Sprintf("(set-option :timeout %d)", timeoutMs))
+	r, m := s.Check(extra, vars)
+	s.TimeoutMs = old
+	s.noFallback = false
+	if !s.dead {
+		s.send(fmt.Sprintf("(set-option :timeout %d)", old))
+	}
+	return r, m
+}
+
 // Check asks whether context ∧ extra is satisfiable; with vars, returns a model on sat.
 func (s *Solver) Check(extra []*Term, vars []*Term) (Result, map[string]string) {
 	t0 := time.Now()
@@ -291,7 +308,19 @@ func (s *Solver) Check(extra []*Term, vars []*Term) (Result, map[string]string) 
 		res = Unknown
 	}
 	solver := "z3"
-	if res == Unknown {
+	if res == Unknown && s.noFallback {
+		if s.dead {
+			tr := append([]string(nil), s.transcript...)
+			df, dc := s.defined, s.declared
+			s.Close()
+			if s.start() == nil {
+				for _, l := range tr {
+					s.emit(l)
+				}
+				s.defined, s.declared = df, dc
+			}
+		}
+	} else if res == Unknown {
 		// portfolio: the same query, one-shot, on cvc5 and z3 5.x
 		s.Stats.Fallback++
 		r2, m2, who := s.fallback(q, vars)
